@@ -118,9 +118,10 @@ def check_learn_length(ck):
     pol = MLPActorCriticPolicy(envd, key=jr.key(0), **ac)
     polq = MLPQPolicy(envd, width_size=2, depth=1, key=jr.key(0))
     grid = [(5, 1, 2), (4, 2, 1), (7, 2, 2), (3, 2, 2)] if not ck.thorough else [(T, E, S_) for T in (1, 4, 7, 12) for E in (1, 2) for S_ in (1, 2, 3)]
+    LS = 17          # warm-up length of the off-policy configuration: larger than every iteration count of the grid, so the two scans cannot be confused
     for T, E, S_ in grid:
         for aname, algo, p in (("PPO", PPO(num_envs=E, num_steps=S_, num_batches=1, num_epochs=1), pol),
-                               ("DQN", DQN(buffer_size=4 * E, learning_starts=1, num_envs=E, num_steps=S_, batch_size=1, target_update_interval=2), polq)):
+                               ("DQN", DQN(buffer_size=4 * E, learning_starts=LS, num_envs=E, num_steps=S_, batch_size=1, target_update_interval=2), polq)):
             with stubs.prng_stubs():
                 tr = trace(lambda env, pol, k: algo.learn(env, pol, T, key=k, callback=None), envd, p, jr.key(0), argnames=["env", "pol", "key"], label=f"{aname}.learn")
             # the iteration loop is the top-level scan over split keys (inside the filter_jit call)
@@ -138,7 +139,9 @@ def check_learn_length(ck):
             walk(tr.jaxpr)
             k = T // (E * S_)
             # warm-up / other scans may exist at top level (DQN's learning_starts); the iteration scan is the one over k keys
-            ok = any(L == k for d, L in lens) if k > 0 else True
+            # (budgets below one rollout: NO iteration -- the iteration scan is absent or has length 0)
+            others = sorted(L for d, L in lens if not (aname == "DQN" and L == LS))
+            ok = others == [k] or (k == 0 and others in ([], [0]))
             ck.fact(f"learn.scan_length.{aname}@T={T},E={E},S={S_}", ok and (k * E * S_ <= T < (k + 1) * E * S_), f"top-level scan lengths {sorted(set(L for d, L in lens))}; floor(T/(E*S)) = {k}")
 
 
